@@ -330,7 +330,7 @@ impl<'a> GenCfg<'a> {
             imul: true,
             fc_brackets: has_floorceil_brackets(ev),
             leaf,
-            sup_digits: vec!["2", "3", "0", "1", "10"],
+            sup_digits: vec!["2", "3", "0", "1", "10", "4", "5", "6", "7", "8", "9", "12"],
             max_len: 256,
         }
     }
